@@ -1388,6 +1388,15 @@ class Sym:
                 er = (rel == "in" and vs == [1]) or (rel == "notin" and vs == [0])
                 if ok or er:
                     return [("ok" if ok else "err", self.name(inner), inner)]
+            a_ = self.prog.adts.get(tyname) if tyname else None
+            if rel == "notin" and a_ and a_.get("kind") == "enum" and len(a_["variants"]) <= 3:
+                # small enums: name the variants that remain (`_ =>` after `A =>` is `B =>` for a two-variant enum)
+                alln = []
+                for i, var in enumerate(a_["variants"]):
+                    alln.append(int(var["discr"]) if var["discr"] is not None else i)
+                rest_ = [v for v in alln if v not in vs]
+                if rest_:
+                    return [("variant", self.name(inner), "in", tuple(self.variant_names(tyname, rest_)))]
             return [("variant", self.name(inner), rel, tuple(self.variant_names(tyname, vs)))]
         tr = truth_of(rel, vals) if is_bool else None
         if tr is None:
